@@ -304,6 +304,15 @@ func runOne(ctx context.Context, sp solverSpec, file string, timeoutS int) solve
 	return solverResult{Status: st, Backend: sp.name, Time: el, Output: s}
 }
 
+func runOneNamed(name, file string, timeoutS int) solverResult {
+	for _, sp := range solvers {
+		if sp.name == name {
+			return runOne(context.Background(), sp, file, timeoutS)
+		}
+	}
+	return solverResult{Status: "error"}
+}
+
 // solve races the back ends: z3-new gets a head start of a second, then
 // cvc5 and old z3 join. The first definitive answer (unsat/sat) wins.
 func solve(file string, timeoutS int, all bool) (solverResult, []solverResult) {
@@ -323,7 +332,14 @@ func solve(file string, timeoutS int, all bool) (solverResult, []solverResult) {
 				case <-time.After(time.Duration(i) * 700 * time.Millisecond):
 				}
 			}
-			ch <- runOne(ctx, sp, file, timeoutS)
+			f := file
+			if sp.bin == "cvc5" {
+				// quantifier-based variant (no lambda terms) when one was written
+				if g := strings.TrimSuffix(file, ".smt2") + ".gen.smt2"; fileExists(g) {
+					f = g
+				}
+			}
+			ch <- runOne(ctx, sp, f, timeoutS)
 		}(i, sp)
 	}
 	var allRes []solverResult
@@ -380,6 +396,11 @@ func solveBatch(file string, n int, totalTimeoutS int) []string {
 		res = append(res, "unknown")
 	}
 	return res
+}
+
+func fileExists(p string) bool {
+	_, err := os.Stat(p)
+	return err == nil
 }
 
 func writeQuery(dir, name, text string) (string, error) {
